@@ -21,8 +21,11 @@ def upd_observation(meta, tr):
     v0 = [x for row in meta['v'] for x in row]
     st0 = pyspec.State(N, K, L, assort, directed, u0, v0, meta['w'])
     after = pyspec.State(N, K, L, assort, directed, fl(d['sweep_u']), fl(d['sweep_v']) if directed else [], fl(d['sweep_w']))
-    return {'N': N, 'A': A, 'st0': st0, 'after': after, 'lik0': bits_to_float(d['lik'][0]), 'lik1': bits_to_float(d['sweep_lik'][0]),
-            'u1_alone': fl(d['u1']), 'w1_alone': fl(d['w1']), 'v1_alone': fl(d['v1']) if directed else None}
+    # (when the private-access unit of the harness is unavailable the case runs through the public entry point and delivers the composed
+    #  sweep only: `lik`, `u1`, `v1`, `w1` are then absent -> None)
+    return {'N': N, 'A': A, 'st0': st0, 'after': after, 'lik0': bits_to_float(d['lik'][0]) if 'lik' in d else None, 'lik1': bits_to_float(d['sweep_lik'][0]),
+            'u1_alone': fl(d['u1']) if 'u1' in d else None, 'w1_alone': fl(d['w1']) if 'w1' in d else None,
+            'v1_alone': fl(d['v1']) if (directed and 'v1' in d) else None}
 
 
 def step_report(st0, A, after):
